@@ -45,7 +45,11 @@ def main(argv):
     if not obls:
         log("no obligations selected for", prop)
         return 2
-    evid_path = os.path.join(VERIF, "evidence", prop + ".json")
+    # evidence / replays of runs against anything other than /repo itself (seed testing via VERIF_REPO) go elsewhere
+    alt = common.REPO.rstrip("/") != "/repo"
+    evid_dir = os.path.join(VERIF, "evidence") if not alt else os.environ.get("VERIF_EVIDENCE_DIR", "/var/tmp/verif-alt/evidence")
+    os.makedirs(evid_dir, exist_ok=True)
+    evid_path = os.path.join(evid_dir, prop + ".json")
     try:
         os.remove(evid_path)
     except OSError:
@@ -192,7 +196,7 @@ class kani_adapter:
 
 
 def write_replay(prop, o, oc):
-    d = os.path.join(VERIF, "replays")
+    d = os.path.join(VERIF, "replays") if common.REPO.rstrip("/") == "/repo" else os.environ.get("VERIF_REPLAY_DIR", "/var/tmp/verif-alt/replays")
     os.makedirs(d, exist_ok=True)
     p = os.path.join(d, "%s-%s.json" % (prop, o.id))
     rec = {"property": prop, "obligation": o.id, "engine": o.engine, "harness": getattr(o, "harness", None),
